@@ -127,7 +127,24 @@ def store_lines(filename):
     return out
 
 
-def trace_changes(fn, shared, pkgdir):
+def module_buffers():
+    """module-level buffers of fastparquet's Python modules (numpy arrays, bytearrays): scratch space every thread shares.
+    Dicts are left out: those are memo tables, whose entries are published whole."""
+    out = {}
+    for mname, mod in list(sys.modules.items()):
+        if not (mname == "fastparquet" or mname.startswith("fastparquet.")) or not str(getattr(mod, "__file__", "")).endswith(".py"):
+            continue
+        for k, v in list(vars(mod).items()):
+            if isinstance(v, (np.ndarray, bytearray)) and not k.startswith("__"):
+                out[f"{mname}.{k}"] = v
+    return out
+
+
+def buffers_sig(bufs):
+    return tuple((k, bytes(v) if isinstance(v, bytearray) else v.tobytes()) for k, v in sorted(bufs.items()))
+
+
+def trace_changes(fn, shared, pkgdir, buffers=None):
     """Run fn() under a line tracer and record every CHANGE of the frozen shared state as it becomes visible.  The state is
     re-examined after every statement of fastparquet's Python files that can store into an existing object (see
     store_lines) and at the end.  Returns (result, [(event_index, file, line, paths)]); event indices count ALL line/return
@@ -135,12 +152,23 @@ def trace_changes(fn, shared, pkgdir):
     last = [freeze(shared)]
     changes, idx = [], [0]
     pending = {}
+    buffers = buffers or {}
+    last_b = [buffers_sig(buffers)]
+    prev_line = {}
 
     def look(fn_, lineno):
         cur = freeze(shared)
         if cur != last[0]:
             changes.append((idx[0], os.path.basename(fn_), lineno, diff_state(last[0], cur)[:6]))
             last[0] = cur
+
+    def look_buffers(fn_, lineno):
+        # cheap, after EVERY statement: native calls write into buffers without any store syntax
+        cur = buffers_sig(buffers)
+        if cur != last_b[0]:
+            names = [a[0] for a, b in zip(cur, last_b[0]) if a != b]
+            changes.append((idx[0], os.path.basename(fn_), lineno, [f"buffer[{n}]" for n in names][:6]))
+            last_b[0] = cur
 
     def tracer(frame, event, arg):
         fn_ = frame.f_code.co_filename
@@ -149,6 +177,9 @@ def trace_changes(fn, shared, pkgdir):
         if event in ("line", "return"):
             idx[0] += 1
             key = id(frame)
+            if buffers:
+                look_buffers(fn_, prev_line.get(key, frame.f_lineno))
+                prev_line[key] = frame.f_lineno
             if pending.get(key):
                 look(fn_, frame.f_lineno)
             if event == "line":
@@ -164,6 +195,8 @@ def trace_changes(fn, shared, pkgdir):
         sys.settrace(None)
     idx[0] += 1
     look("<end>", 0)
+    if buffers:
+        look_buffers("<end>", 0)
     return out, changes
 
 
@@ -301,7 +334,7 @@ def run(ctx, report):
     for name, op in OPS.items():
         pf = fastparquet.ParquetFile(path)
         try:
-            _, changes = trace_changes(lambda: op(pf), shared_state(pf), pkgdir)
+            _, changes = trace_changes(lambda: op(pf), shared_state(pf), pkgdir, buffers=module_buffers())
         except Exception as e:  # noqa
             report.notes.append(f"trace of {name} failed: {canon_err(e)} {str(e)[:60]}")
             continue
@@ -310,7 +343,7 @@ def run(ctx, report):
         seen, suspicious = {}, []
         for (k, fl, ln, paths) in changes:
             for pth in paths:
-                memo = any(m in pth for m in MEMO_OK) or pth.startswith("fmd[\'handle\']") or "['handle']" in pth
+                memo = (any(m in pth for m in MEMO_OK) or pth.startswith("fmd[\'handle\']") or "['handle']" in pth) and not pth.startswith("buffer[")
                 seen[pth] = seen.get(pth, 0) + 1
                 if not memo or seen[pth] > 1:
                     suspicious.append((k, fl, ln, pth, "non-memo shared state written" if not memo else "memo written twice"))
@@ -406,7 +439,9 @@ def run(ctx, report):
         from fastparquet import writer
         fmd = writer.make_metadata(df, object_encoding="infer") if hasattr(writer, "make_metadata") else None
         if fmd is not None:
-            chunks = [df.iloc[i:i + 10] for i in range(0, 60, 10)]
+            # parts of different lengths: their level-run headers and page sizes differ
+            cuts = [0, 7, 17, 30, 39, 50, 60]
+            chunks = [df.iloc[a:b] for a, b in zip(cuts, cuts[1:])]
 
             def write_part(ch):
                 buf = io.BytesIO()
@@ -420,7 +455,7 @@ def run(ctx, report):
             seq_h = [write_part(c) for c in chunks]
             # transient write set of the part-file writer on the SHARED metadata object: it must not be written at all
             try:
-                _, wch = trace_changes(lambda: write_part(chunks[0]), {"fmd": fmd}, pkgdir)
+                _, wch = trace_changes(lambda: write_part(chunks[0]), {"fmd": fmd}, pkgdir, buffers=module_buffers())
             except Exception as e:  # noqa
                 wch = []
                 report.notes.append("trace of make_part_file failed: " + canon_err(e))
@@ -430,7 +465,9 @@ def run(ctx, report):
             if wch:
                 k, fl, ln, paths = wch[0]
                 rec = {"check": "transient", "op": "make_part_file", "at": f"{fl}:{ln}", "path": paths[0] if paths else "?",
-                       "why": "the shared FileMetaData is written while a part file is produced"}
+                       "why": ("a module-level buffer (scratch space every thread shares) is written while a part file is produced"
+                               if paths and paths[0].startswith("buffer[") else
+                               "the shared FileMetaData is written while a part file is produced")}
                 report.corr_break("sched.transient", {**rec, "model": "part-file writers only read the shared metadata",
                                                       "real": [list(x[1:]) for x in wch[:4]], "explained_by_known": False})
                 ra, rb = run_paused(lambda: write_part(chunks[0]), k, pkgdir, lambda: write_part(chunks[1]))
